@@ -207,6 +207,7 @@ def parseEv (seg : String) : Nat × Ev :=
 /-! ### monitor state -/
 
 structure Env where
+  por : Bool := true      -- partial-order reduction on (driver argument `nopor` switches it off: cross-check)
   cfg : Cfg
   sc : Scen
   tickEvery : Nat
@@ -374,17 +375,138 @@ def normalize (env : Env) : Nat → M → M
 
 def normFuel : Nat := 100000
 
-/-- successors by one branching internal step (normalised) -/
-def branchSteps (env : Env) (m : M) : List M :=
+/-! ### partial-order reduction of the unobserved steps
+
+Every unobserved ("branching") step is classified by the shared objects it – and the rest of its agent's unobserved steps
+at this instant – reads or writes. If some agent's remaining steps conflict with NO other agent (present, or arriving
+later at the same instant: the look-ahead over the remaining events with the same time stamp), its next step commutes
+with everything that can happen before it and is taken first without exploring the alternatives (a persistent set of
+size one; the step is invisible, observable events only change the pc of their own agent). Otherwise all enabled
+steps are explored. Without this, k simultaneous calls cost (steps per call)^k states. -/
+
+inductive Obj
+  | map (k : Nat)                    -- the entry of key k in its shard map
+  | st (k : Nat) (f : Option Nat)    -- updateTime/err of future f of key k (none = any future of the key)
+  | pr (k : Nat) (f : Option Nat)    -- predecessor pointer
+  | chan                             -- the job channel (order of sends)
+  | alloc                            -- allocation order of futures (model ids)
+
+structure Access where
+  obj : Obj
+  w : Bool
+
+abbrev Foot := List Access
+
+def optMeet (a b : Option Nat) : Bool := a.isNone || b.isNone || a == b
+
+def objMeet : Obj → Obj → Bool
+  | .map a, .map b => a == b
+  | .st k a, .st k' b => k == k' && optMeet a b
+  | .pr k a, .pr k' b => k == k' && optMeet a b
+  | .chan, .chan => true
+  | .alloc, .alloc => true
+  | _, _ => false
+
+def footConflict (a b : Foot) : Bool :=
+  a.any (fun x => b.any (fun y => (x.w || y.w) && objMeet x.obj y.obj))
+
+/-- everything a Load of key k may still touch before it returns -/
+def loadFoot (k : Nat) : Foot :=
+  [⟨.map k, true⟩, ⟨.st k none, false⟩, ⟨.pr k none, false⟩, ⟨.chan, true⟩, ⟨.alloc, true⟩]
+
+def get2Foot (k : Nat) : Foot := [⟨.map k, false⟩, ⟨.st k none, false⟩, ⟨.pr k none, false⟩]
+
+def setFoot (k : Nat) : Foot := [⟨.map k, true⟩, ⟨.alloc, true⟩]
+
+/-- remaining unobserved accesses of a client at pc -/
+def clientFoot (s : State) : CPc → Foot
+  | .ldStart k _ => loadFoot k
+  | .ldSend j plan _ =>
+    ⟨.chan, true⟩ :: (match plan with
+                      | .fetch f => [⟨.pr j.key (some f), false⟩, ⟨.st j.key none, false⟩]
+                      | .ret _ => [])
+  | .fetch f _ => [⟨.pr (s.fut f).key (some f), false⟩, ⟨.st (s.fut f).key none, false⟩]
+  | .fetchSt f (some p) _ => [⟨.st (s.fut f).key (some p), false⟩]
+  | .g2Start k => get2Foot k
+  | .g2Status (some f) => [⟨.st (s.fut f).key none, false⟩, ⟨.pr (s.fut f).key (some f), false⟩]
+  | .setStart k _ => setFoot k
+  | _ => []
+
+/-- the accesses of the client's NEXT unobserved step only (what must be independent of everybody else's remaining
+    steps for the step to be taken first) -/
+def clientNextFoot (s : State) : CPc → Foot
+  | .ldStart k _ => [⟨.map k, true⟩, ⟨.st k none, false⟩, ⟨.alloc, true⟩]
+  | .ldSend _ _ _ => [⟨.chan, true⟩]
+  | .fetch f _ => [⟨.pr (s.fut f).key (some f), false⟩]
+  | .fetchSt f (some p) _ => [⟨.st (s.fut f).key (some p), false⟩]
+  | .g2Start k => [⟨.map k, false⟩]
+  | .g2Status (some f) => [⟨.st (s.fut f).key (some f), false⟩]
+  | .setStart k _ => setFoot k
+  | _ => []
+
+def workerNextFoot : WPc → Foot
+  | .publish j _ => [⟨.st j.key (some j.fut), true⟩]
+  | .clearPred j => [⟨.pr j.key (some j.fut), true⟩]
+  | _ => []
+
+/-- setValue of the worker holding job j -/
+def publishFoot (k : Nat) (f : Option Nat) : Foot := [⟨.st k f, true⟩, ⟨.pr k f, true⟩]
+
+def workerFoot : WPc → Foot
+  | .publish j _ => publishFoot j.key (some j.fut)
+  | .clearPred j => [⟨.pr j.key (some j.fut), true⟩]
+  | _ => []
+
+/-- agents that will still arrive at this instant (remaining events with the same time stamp) -/
+def lookFoots (env : Env) (m : M) (evs : List Ev) : List Foot :=
+  evs.filterMap (fun e =>
+    match e with
+    | .call c =>
+      match (callOf env c).map (fun (x : Call) => x.op) with
+      | some (Op.load k _ _) => some (loadFoot k)
+      | some (Op.get2 k) => some (get2Foot k)
+      | some (Op.set k _) => some (setFoot k)
+      | _ => none
+    | .lstart ld _ _ =>                 -- its loader may also end at this instant: setValue on a future of that key
+      match (callOf env ld).map (fun (x : Call) => x.op) with
+      | some (Op.load k _ _) => some (publishFoot k none)
+      | _ => none
+    | .lend n _ =>
+      match m.invs[n]? with
+      | some (_, _, ld) =>
+        match (callOf env ld).map (fun (x : Call) => x.op) with
+        | some (Op.load k _ _) => some (publishFoot k none)
+        | _ => none
+      | none => none
+    | _ => none)
+
+/-- successors by one branching internal step (normalised), reduced as described above -/
+def branchSteps (env : Env) (look : M → List Foot) (m : M) : List M :=
   let cfg := env.cfg
   let s := m.s
-  let cs := m.active.filterMap (fun c =>
-    if isBranchPc (s.cpc c) then (clStep cfg s c).map (fun s' => normalize env normFuel { m with s := s' }) else none)
-  let ws := (List.range cfg.P).filterMap (fun w =>
+  -- per agent: (accesses of its next step, all its remaining accesses, successor if the step is enabled)
+  let cs : List (Foot × Foot × Option M) := m.active.filterMap (fun c =>
+    if isBranchPc (s.cpc c) then
+      some (clientNextFoot s (s.cpc c), clientFoot s (s.cpc c),
+            (clStep cfg s c).map (fun s' => normalize env normFuel { m with s := s' }))
+    else none)
+  let ws : List (Foot × Foot × Option M) := (List.range cfg.P).filterMap (fun w =>
     match s.wpc w with
-    | .publish _ _ | .clearPred _ => (wkStep cfg s w).map (fun s' => normalize env normFuel { m with s := s' })
+    | .publish _ _ | .clearPred _ =>
+      some (workerNextFoot (s.wpc w), workerFoot (s.wpc w),
+            (wkStep cfg s w).map (fun s' => normalize env normFuel { m with s := s' }))
     | _ => none)
-  cs ++ ws
+  let agents := (cs ++ ws).zipIdx
+  let later := look m
+  let independent := if !env.por then none else agents.findSome? (fun ((next, _, succ), i) =>
+    match succ with
+    | none => none
+    | some m' =>
+      if agents.all (fun ((_, rest', _), j) => i == j || !footConflict next rest') &&
+         later.all (fun foot' => !footConflict next foot') then some m' else none)
+  match independent with
+  | some m' => [m']
+  | none => agents.filterMap (fun ((_, _, succ), _) => succ)
 
 abbrev MSet := List (UInt64 × M)
 
@@ -397,15 +519,16 @@ def insertM (env : Env) (set : MSet) (m : M) : MSet × Bool :=
 def closureLimit : Nat := 3000
 def workLimit : Nat := 400000
 
-/-- all states reachable by unobserved steps (breadth first, de-duplicated) -/
-def closure (env : Env) (start : List M) : MSet :=
-  let rec go (fuel : Nat) (n : Nat) (set : MSet) (frontier : List M) : MSet :=
+/-- all states reachable by unobserved steps (breadth first, de-duplicated, reduced); the flag says that the
+    exploration was cut off by the time box (the result is then incomplete and must not be used to reject) -/
+def closure (env : Env) (look : M → List Foot) (start : List M) : MSet × Bool :=
+  let rec go (fuel : Nat) (n : Nat) (set : MSet) (frontier : List M) : MSet × Bool :=
     match fuel, frontier with
-    | 0, _ => set
-    | _, [] => set
+    | 0, _ => (set, true)
+    | _, [] => (set, false)
     | fuel + 1, m :: rest =>
-      if n > closureLimit then set else
-      let succs := branchSteps env m
+      if n > closureLimit then (set, true) else
+      let succs := branchSteps env look m
       let (set, newOnes) := succs.foldl (fun (acc : MSet × List M) m' =>
         let (set', isNew) := insertM env acc.1 m'
         (set', if isNew then acc.2 ++ [m'] else acc.2)) (set, [])
@@ -605,15 +728,18 @@ structure Acc where
   maxSet : Nat
   nev : Nat
   work : Nat := 0
-  last : Nat := 0                -- size of the last closure
+  last : Nat := 0                -- size of the last closures
+  trunc : Bool := false          -- an exploration was cut off by the time box
   unchecked : Bool := false
 
-def processEvent1 (env : Env) (acc : Acc) (tev : Nat × Ev) : Acc :=
+/-- `sameT` = the events from this one on that carry the same time stamp (look-ahead of the reduction) -/
+def processEvent1 (env : Env) (sameT : List Ev) (acc : Acc) (tev : Nat × Ev) : Acc :=
   match acc.err with
   | some _ => acc
   | none =>
     let (t, ev) := tev
     let fail (why : String) : Acc := { acc with err := some s!"event {acc.nev}: {why}" }
+    let cut (n : Nat) : Acc := { acc with trunc := true, last := n }
     match acc.set with
     | [] => fail "no model state"
     | m0 :: _ =>
@@ -621,33 +747,44 @@ def processEvent1 (env : Env) (acc : Acc) (tev : Nat × Ev) : Acc :=
       match ev with
       | .fin =>
         -- end of the observation: some tracked state (after the remaining unobserved steps) must be completely finished
-        let cl := (closure env acc.set).map (·.2)
+        let (cl0, tr) := closure env (fun _ => []) acc.set
+        let cl := cl0.map (·.2)
         match cl.find? (fun m => (allDone env m).isNone && (urgent env m).isNone) with
         | some m => { acc with set := [m], nev := acc.nev + 1, maxSet := max acc.maxSet cl.length, last := cl.length }
         | none =>
+          if tr then cut cl.length else
           let why := (cl.head?.bind (fun m => (allDone env m).orElse fun _ => urgent env m)).getD "?"
           fail s!"scenario ended but in the model {why}"
       | _ =>
       if t < now then fail s!"time goes backwards ({t} < {now})" else
-      -- 1. advance virtual time
-      let stepTime : Except String (List M) :=
-        if t = now then .ok acc.set else
-          let cl := (closure env acc.set).map (·.2)
+      -- 1. advance virtual time: every agent runs until it blocks; nothing else arrives at the old instant any more
+      let stepTime : Except (Option String) (List M × Nat) :=
+        if t = now then .ok (acc.set, 0) else
+          let (cl0, tr) := closure env (fun _ => []) acc.set
+          let cl := cl0.map (·.2)
           let quiet := cl.filter (fun m => (urgent env m).isNone && (overdue env m t).isNone)
           match quiet with
           | [] =>
+            if tr then .error none else
             let why := (cl.head?.bind (fun m => (urgent env m).orElse fun _ => overdue env m t)).getD "?"
-            .error s!"virtual time advanced from {now} to {t} although {why}"
-          | _ => .ok (quiet.map (advance env t 1000000))
+            .error (some s!"virtual time advanced from {now} to {t} although {why}")
+          | _ => .ok (quiet.map (advance env t 1000000), cl.length)
       match stepTime with
-      | .error e => fail e
-      | .ok set1 =>
+      | .error none => cut (closureLimit + 1)
+      | .error (some e) => fail e
+      | .ok (set1, n1) =>
         -- 2. unobserved steps, 3. the observed event
-        let cl := (closure env set1).map (·.2)
+        -- (an invocation only moves its own client from idle to its first pc: it commutes with every unobserved step,
+        --  so no exploration is needed before it – the next closure explores from the states after the call)
+        let isCall := match ev with | .call _ => true | _ => false
+        let (cl0, tr) := if isCall then (set1.map (fun m => ((0 : UInt64), m)), false)
+                         else closure env (fun m => lookFoots env m sameT) set1
+        let cl := cl0.map (·.2)
         let res := cl.map (fun m => applyEv env m ev)
         let oks := res.filterMap (fun r => match r with | .ok m => some (normalize env normFuel m) | .error _ => none)
         match oks with
         | [] =>
+          if tr then cut cl.length else
           let why := (res.findSome? (fun r => match r with | .error e => some e | .ok _ => none)).getD "?"
           fail s!"t={t}: {why}"
         | _ =>
@@ -655,15 +792,23 @@ def processEvent1 (env : Env) (acc : Acc) (tev : Nat × Ev) : Acc :=
           let keys := oks.map (hashM env)
           let ded := (oks.zip keys).foldl (fun (acc : List (UInt64 × M)) (m, k) =>
             if acc.any (fun (k', _) => k' == k) then acc else acc ++ [(k, m)]) []
-          { acc with set := ded.map (·.2), nev := acc.nev + 1, maxSet := max acc.maxSet cl.length, last := cl.length }
+          { acc with set := ded.map (·.2), nev := acc.nev + 1, maxSet := max acc.maxSet (max cl.length n1),
+                     last := cl.length + n1, trunc := acc.trunc || tr }
 
-/-- one event, with the time box: the state sets of the event count as work -/
-def processEvent (env : Env) (acc : Acc) (tev : Nat × Ev) : Acc :=
+/-- one event, with the time box: the state sets of the event count as work; an exploration that was cut off makes the
+    monitor give up on the line (never reject on an incomplete state set) -/
+def processEvent (env : Env) (sameT : List Ev) (acc : Acc) (tev : Nat × Ev) : Acc :=
   if acc.unchecked || acc.err.isSome then acc else
-  let acc' := processEvent1 env acc tev
+  let acc' := processEvent1 env sameT acc tev
   let work := acc.work + acc'.last
-  if acc'.last > closureLimit || work > workLimit then { acc with unchecked := true, work := work }
+  if acc'.trunc || work > workLimit then { acc with unchecked := true, work := work }
   else { acc' with work := work }
+
+def processAll (env : Env) : Acc → List (Nat × Ev) → Acc
+  | acc, [] => acc
+  | acc, (t, e) :: rest =>
+    let sameT := e :: (rest.takeWhile (fun x => x.1 == t)).map (·.2)
+    processAll env (processEvent env sameT acc (t, e)) rest
 
 /-- shard index of every key id, computed once per scenario (the table is captured by the partial application) -/
 def shardTable (S : Nat) (keys : List String) : Array Nat :=
@@ -671,7 +816,7 @@ def shardTable (S : Nat) (keys : List String) : Array Nat :=
 
 def shardLookup (arr : Array Nat) (k : Nat) : Nat := arr.getD k 0
 
-def monitorScen (script impl : String) : String :=
+def monitorScen (por : Bool) (script impl : String) : String :=
   match parseScen script with
   | none => "reject unparsable script"
   | some sc =>
@@ -684,18 +829,18 @@ def monitorScen (script impl : String) : String :=
         let shards := shardTable S sc.keys
         let cfg : Cfg := { P := sc.P, J := sc.J, S := S, En := sc.En, Ee := sc.Ee, shardOf := shardLookup shards }
         let maxCid := sc.calls.foldl (fun a c => max a c.cid) 0
-        let env : Env := { cfg := cfg, sc := sc, tickEvery := tickFactor * sc.En, maxCid := maxCid }
+        let env : Env := { por := por, cfg := cfg, sc := sc, tickEvery := tickFactor * sc.En, maxCid := maxCid }
         let m0 : M := { s := init, seen := [], nextTick := env.tickEvery, invs := [], active := [] }
         let evl := evs.map parseEv
         let evl := if evl.any (fun (_, e) => match e with | .fin => true | .hang _ => true | _ => false) then evl
                    else evl ++ [(0, Ev.bad "observation has no end marker")]
-        let acc := evl.foldl (processEvent env) { set := [m0], err := none, maxSet := 1, nev := 0 }
+        let acc := processAll env { set := [m0], err := none, maxSet := 1, nev := 0 } evl
         if acc.unchecked then s!"ok unchecked (monitor time box: state sets too large at event {acc.nev}, work {acc.work})" else
         match acc.err with
         | some e => "reject " ++ e
         | none => s!"ok events={acc.nev} maxset={acc.maxSet}"
 
-def monitorLine (line : String) : String :=
+def monitorLine (por : Bool) (line : String) : String :=
   match line.splitOn "\t" with
   | [script, impl] =>
     match words script with
@@ -713,7 +858,7 @@ def monitorLine (line : String) : String :=
       | none => "reject unparsable cpo2 line"
     | "cfg" :: _ =>
       -- a spinning goroutine of an earlier scenario froze the fake clock: nothing was observed for this scenario
-      if impl = "skipped-after-livelock" then "ok skipped" else monitorScen script impl
+      if impl = "skipped-after-livelock" then "ok skipped" else monitorScen por script impl
     | ["procs", _] => if impl = "ok" then "ok" else "reject procs"
     | "stress" :: _ =>
       -- real goroutines racing on one key: by C04_no_second_load / C04_one_live_loader the model never duplicates a load
@@ -722,7 +867,8 @@ def monitorLine (line : String) : String :=
     | _ => "reject unknown script line"
   | _ => "reject malformed monitor input (expected script<TAB>observation)"
 
-def main (_args : List String) : IO Unit := do
-  lineLoop (← IO.getStdin) (← IO.getStdout) (fun (_ : Unit) l => ((), monitorLine l)) ()
+def main (args : List String) : IO Unit := do
+  let por := !(args.contains "nopor")
+  lineLoop (← IO.getStdin) (← IO.getStdout) (fun (_ : Unit) l => ((), monitorLine por l)) ()
 
 end Got.Drv.Cache
